@@ -69,12 +69,13 @@ MatrixRef(ev) ==
       cs  == TLCEval([i \in 1..n |-> S2C(ev.texts[i])])
       I   == {i \in 1..n : RefScope(Prop, cs[i])}
       key == TLCEval([i \in I |-> RefKey(Prop, cs[i])])
-      want == TLCEval([p \in I \X I |-> RefCmpKey(Prop, key[p[1]], key[p[2]])])
-      claimed == {p \in I \X I : want[p] # 2}          \* 2 = the reference leaves the pair unclaimed
-      bad == {p \in claimed : want[p] # M[p[1]][p[2]]}
-  IN IF PrintT(<<"INFO", ToJson([judged |-> Cardinality(claimed), inscope |-> Cardinality(I)])>>) THEN
+      W(p) == RefCmpKey(Prop, key[p[1]], key[p[2]])
+      \* 2 = the reference leaves the pair unclaimed (only C12 has such pairs)
+      unclaimed == IF Prop = "C12" THEN Cardinality({p \in I \X I : W(p) = 2}) ELSE 0
+      bad == {p \in I \X I : LET w == W(p) IN w # 2 /\ w # M[p[1]][p[2]]}
+  IN IF PrintT(<<"INFO", ToJson([judged |-> Cardinality(I) * Cardinality(I) - unclaimed, inscope |-> Cardinality(I)])>>) THEN
      {[prop |-> Prop, eco |-> ev.eco, why |-> "ref", a |-> ev.texts[p[1]], b |-> ev.texts[p[2]],
-       got |-> M[p[1]][p[2]], want |-> want[p], known |-> ""] : p \in bad}
+       got |-> M[p[1]][p[2]], want |-> W(p), known |-> ""] : p \in bad}
      ELSE {}
 
 (* Spec audit: the reference operator against answers of an executable         *)
